@@ -145,6 +145,9 @@ var ledgerSpecs = []ledgerSpec{
 		return wide(tier, []ledgerRun{
 			{"same-trx-two-nodes+dup", ledger.Cfg{Nodes: []string{"G", "N1"}, Supply: sp(10, 0), Menu: []ledger.TxSpec{t1, t7}, Dup: true, Tick: true, Props: only("C03")}, d, 0, 0},
 			{"drop-then-repropose+truncate", ledger.Cfg{Nodes: []string{"G"}, Supply: sp(10, 0), Menu: []ledger.TxSpec{t1, t3, t7}, Crafted: []ledger.TxSpec{mx}, Truncate: true, Props: only("C03")}, d, 0, 0},
+			// data-only (contract) vertices in the truncated region, re-offered afterwards
+			{"contracts+truncate", ledger.Cfg{Nodes: []string{"G"}, Supply: sp(10, 0), Menu: []ledger.TxSpec{t1, {Label: "cx", From: "R", To: "B", Data: "d"}, {Label: "cy", From: "A", To: "B", Data: "d"}, cfl2("c7")}, Truncate: true,
+				Prefix: []string{"P:0:c1", "P:0:p1"}, Props: only("C03")}, d, 0, 0},
 		},
 			ledgerRun{"same-trx-three-nodes+dup", ledger.Cfg{Nodes: three, Supply: sp(10, 0), Menu: []ledger.TxSpec{t1, t7}, Dup: true, Tick: true, MaxProposeNodes: 3, Props: only("C03")}, 9, 0, 0},
 		)
@@ -184,6 +187,10 @@ var ledgerSpecs = []ledgerSpec{
 			{"interrupted-truncation", ledger.Cfg{Nodes: []string{"G"}, Supply: sp(10, 0), Menu: []ledger.TxSpec{t3, cf("c4")}, Hidden: []ledger.TxSpec{t1}, Truncate: true, TruncCancel: []int{1, 2, 3, 4, 5, 6},
 				Prefix: []string{"P:0:t1", "P:0:c1", "P:0:c2", "P:0:c3"}, Props: only("C07")}, 3, 0, 0},
 			{"two-nodes", ledger.Cfg{Nodes: []string{"G", "N1"}, Supply: sp(10, 0), Menu: []ledger.TxSpec{t1, t3, t7}, Truncate: true, MaxProposeNodes: 1, Props: only("C07")}, d, 0, 0},
+			// amounts at the 2^64 edge: the same 2^63 coins move twice inside the truncated region (each balance representable)
+			{"huge-amounts+truncate", ledger.Cfg{Nodes: []string{"G"}, Supply: sp(1<<64-1, 0), Menu: []ledger.TxSpec{cf("c4"), cf("c5"), tx("w3", "B", "A", 1<<62, 999_999_999_999_999_999)},
+				Hidden: []ledger.TxSpec{tx("w1", "R", "A", 1<<63, 0), tx("w2", "A", "B", 1<<63, 0)}, Truncate: true,
+				Prefix: []string{"P:0:w1", "P:0:w2", "P:0:c1", "P:0:c2", "P:0:c3"}, Props: only("C07")}, 4, 0, 0},
 		},
 			ledgerRun{"three-nodes+truncate", ledger.Cfg{Nodes: three, Supply: sp(10, 0), Menu: []ledger.TxSpec{t1, t3, t7}, Truncate: true, MaxProposeNodes: 1, Props: only("C07")}, 8, 0, 0},
 		)
@@ -195,6 +202,8 @@ var ledgerSpecs = []ledgerSpec{
 		}
 		return wide(tier, []ledgerRun{
 			{"two-nodes+overdraw+truncate+dup", ledger.Cfg{Nodes: []string{"G", "N1"}, Supply: sp(10, 0), Menu: []ledger.TxSpec{t1, t2, t3}, Crafted: []ledger.TxSpec{mx}, Truncate: true, Dup: true, Tick: true, Props: only("C09")}, d, 0, 0},
+			// branches of unequal depth merged by a local proposal: two proposals at node 0, one at node 1, its delivery, then a fourth proposal
+			{"unequal-branches-merged", ledger.Cfg{Nodes: []string{"G", "N1"}, Supply: sp(10, 0), Menu: []ledger.TxSpec{t1, t3, t7, tx("t7c", "R", "A", 0, 3)}, MaxProposeNodes: 1, Props: only("C09")}, d, 0, 0},
 			// data-only vertices and transfers mixed, truncated from a non-initial history
 			{"contracts+transfers+truncate", ledger.Cfg{Nodes: []string{"G"}, Supply: sp(10, 0), Menu: []ledger.TxSpec{t1, t3, {Label: "cx", From: "R", To: "B", Data: "d"}, {Label: "cy", From: "A", To: "B", Data: "d"}},
 				Truncate: true, Prefix: []string{"P:0:c1", "P:0:p1", "P:0:c2"}, Props: only("C09")}, d, 0, 0},
